@@ -141,14 +141,12 @@ def render_params(trait, p, level, sp):
     only_ignore = set(p.keys()) == {'ignore'} and p['ignore'] is True
     if only_ignore and level == 'field' and trait in ('PartialEq', 'Eq', 'PartialOrd', 'Ord', 'Hash', 'Debug'):
         return sp.pick('ignoreform', ['(' + _sp_bool_flag('ignore', sp) + ')', ' = false'])
-    if trait == 'Debug' and set(p.keys()) == {'name'} and p['name'] not in (True,):
-        # Trait = X shorthand for a name
+    if trait == 'Debug' and set(p.keys()) == {'name'} and isinstance(p['name'], str):
+        # Trait = X shorthand for a (re)name; `= false` is not a name at type/variant level and
+        # means ignore at field level, so only identifiers take the short form
         v = p['name']
         long = '(' + _sp_name(v, sp) + ')'
-        if v is False:
-            short = sp.pick('namefalse_short', [' = false', ' = ""'])
-        else:
-            short = sp.pick('nameid_short', [f' = {v}', f' = "{v}"'])
+        short = sp.pick('nameid_short', [f' = {v}', f' = "{v}"'])
         return sp.pick('nameshort', [long, short])
     if trait == 'Default' and level == 'field' and set(p.keys()) <= {'expr', 'lit'}:
         long = '(' + _sp_expr(p['expr'], sp) + ')'
